@@ -336,7 +336,9 @@ def report(ctx: click.Context, tjp_file: Optional[str], output_csv: bool, output
         if verbose:
             logger.debug("Running ScriptPlan report generator")
 
-        success, error_msg = run_scriptplan(str(temp_file), str(temp_output_dir))
+        # Generate only the auto report: reports defined by the project itself are not
+        # needed here and their output names are not confined to the temp directory
+        success, error_msg = run_scriptplan(str(temp_file), str(temp_output_dir), report_ids=[auto_report_id])
 
         if not success:
             raise ReportGenerationError(error_msg or "Report generation failed")
